@@ -210,6 +210,17 @@ def strOfBytes (b : Bytes) : String := String.ofList (b.map Char.ofNat)
 def addrStr (a : Addr) : String :=
   if a.v6 then s!"({strOfBytes a.host}, {a.port}, {a.flow}, {a.scope})" else s!"({strOfBytes a.host}, {a.port})"
 
+/-- decimal digits of a natural number, least significant first (`fuel` > number of digits) -/
+def digitsRev : Nat → Nat → List Nat
+  | 0, _ => []
+  | f + 1, n => if n < 10 then [n] else (n % 10) :: digitsRev f (n / 10)
+
+/-- `str(n)` for an integer: what `toString` prints, defined structurally so that the tracker model's
+    `_timestamp` parser can be proved to read it back (`tsOf_hsOf`) -/
+def decInt (t : Int) : String :=
+  let ds (n : Nat) : List Char := ((digitsRev (n + 1) n).reverse).map fun d => Char.ofNat (48 + d)
+  if t < 0 then String.ofList ('-' :: ds t.natAbs) else String.ofList (ds t.toNat)
+
 /-- header values as text (`_timestamp` as the decimal µs the tracker model parses; the other metadata
     values are never compared by the tracker: names starting with `_` are skipped) -/
 def valStr : Val → String
@@ -217,7 +228,7 @@ def valStr : Val → String
   | .addr a => addrStr a
   | .pyNone => "None"
   | .int n => toString n
-  | .ts t => toString t
+  | .ts t => decInt t
   | .unk => "?"
 
 /-- the items of the decoded header map, in order, as the tracker model takes them -/
